@@ -633,27 +633,33 @@ Qed.
 
 (** result column names: parsed in the execution dialect, re-normalised execution -> output *)
 Definition names_of (F : pfacts) (E : engine) := match pf_names_of F E with Some n => n | None => pf_names F end.
-Definition names_resolved (F : pfacts) (E : engine) : option (aval * aval * aval) :=
+(** (dialect the reported name is read in -- None when it is taken as data, exp.to_identifier --, from, to) *)
+Definition names_resolved (F : pfacts) (E : engine) : option (option aval * aval * aval) :=
   let '(p, f, t) := names_of F E in
-  match aeval None p, sassoc f (pf_str_to_dialect F), sassoc t (pf_str_to_dialect F) with
-  | Some pv, Some fd, Some td =>
+  match sassoc f (pf_str_to_dialect F), sassoc t (pf_str_to_dialect F) with
+  | Some fd, Some td =>
       match aeval None fd, aeval None td with
-      | Some fv, Some tv => Some (pv, fv, tv)
+      | Some fv, Some tv => Some (aeval None p, fv, tv)
       | _, _ => None
       end
-  | _, _, _ => None
+  | _, _ => None
   end.
 Definition names_ok (F : pfacts) : bool :=
-  forallb (fun E => match names_resolved F E with Some (VExec, VExec, VOut) => true | _ => false end) all_engines.
+  forallb (fun E => match names_resolved F E with
+                    | Some (Some VExec, VExec, VOut) | Some (None, VExec, VOut) => true
+                    | _ => false end) all_engines.
 
 Theorem result_names_renormalised F :
   names_ok F = true -> forall E s u,
-    option_map (fun t => let '(p, f, t') := t in (conc s u p, conc s u f, conc s u t')) (names_resolved F E)
-    = Some (s_exec s, s_exec s, s_out s).
+    exists p, names_resolved F E = Some (p, VExec, VOut)
+              /\ (p = None \/ option_map (conc s u) p = Some (s_exec s))
+              /\ conc s u VExec = s_exec s /\ conc s u VOut = s_out s.
 Proof.
   intros H E s u. unfold names_ok in H. rewrite forallb_forall in H.
   specialize (H E (all_engines_complete E)).
-  destruct (names_resolved F E) as [[[[] []] []]|]; try discriminate. reflexivity.
+  destruct (names_resolved F E) as [[[[[]|] []] []]|]; try discriminate.
+  - exists (Some VExec). repeat split. right. reflexivity.
+  - exists None. repeat split. left. reflexivity.
 Qed.
 
 (* ------------------------------------------------------------------------------------------------ *)
